@@ -33,6 +33,8 @@ func TestEngine(t *testing.T) {
 	switch engine {
 	case "mint":
 		runMint(t, seed, n, dir)
+	case "cl":
+		runCL(t, seed, n, dir)
 	default:
 		t.Fatalf("unknown engine %q", engine)
 	}
